@@ -539,13 +539,19 @@ func (r *Run) Finish() int {
 		"violations":  r.nviol,
 	}
 	if r.pinpoint == "" {
-		os.MkdirAll(filepath.Join(r.Root, "evidence"), 0o755)
+		// Runs against a scratch copy (VERIF_REPO: seeded changes, mutants) must not overwrite the
+		// evidence of /repo itself.
+		evdir := filepath.Join(r.Root, "evidence")
+		if alt := os.Getenv("VERIF_REPO"); alt != "" && alt != "/repo" {
+			evdir = filepath.Join(r.Root, ".build", "evidence-scratch")
+		}
+		os.MkdirAll(evdir, 0o755)
 		b, err := json.MarshalIndent(ev, "", " ")
 		if err != nil {
 			fmt.Fprintln(os.Stderr, "evidence marshal:", err)
 			return 2
 		}
-		if err := os.WriteFile(filepath.Join(r.Root, "evidence", r.Prop+".json"), b, 0o644); err != nil {
+		if err := os.WriteFile(filepath.Join(evdir, r.Prop+".json"), b, 0o644); err != nil {
 			fmt.Fprintln(os.Stderr, "evidence write:", err)
 			return 2
 		}
